@@ -76,6 +76,24 @@ def run_program(prog, seed, policy, base, family="corpus", replay=None):
         res["status"] = "harness-failed"
         return res
     impl = open(trace).read().splitlines()
+    nomodel = "nomodel=1" in open(prog).read().split("\n", 1)[0]
+    if nomodel:
+        # scenarios with user code the model does not cover (panicking destructors): the real crate runs
+        # under the scheduler and only the oracles judge the trace
+        res["steps"] = len(open(sched).read().splitlines())
+        res["stats"] = {}
+        res["events"] = len(impl)
+        res["digest"] = hashlib.sha1("\n".join(impl).encode()).hexdigest()[:16]
+        res["flags"] = [l for l in impl if l.startswith(". FAULT") or l.startswith(". PANIC") or l.startswith(". HARNESS-ERROR") or l.startswith(". DEADLOCK") or l.startswith(". LIMIT")]
+        try:
+            findings, metrics = tracemod.analyse(tracemod.parse_program(open(prog).read()), impl)
+        except Exception as ex:
+            findings, metrics = [("HARNESS", "oracle crashed: %r" % (ex,))], {}
+        res["findings"] = findings
+        res["metrics"] = metrics
+        res["nomodel"] = True
+        res["status"] = "ok" if code in (0, 3, 5) else "harness-failed"
+        return res
     m = subprocess.run([MODEL, prog, sched], stdout=subprocess.PIPE, stderr=subprocess.PIPE, timeout=120)
     model = m.stdout.decode().splitlines()
     # the model driver evaluates the accounting equation of coq/ASModel/AccDefs.v on every state
